@@ -272,6 +272,25 @@ static void check_stream_states(const std::string& name, const X& x) {
     }
   }
 }
+// What Print / JSON / XML / YAML returned stays what it was when the same function is asked of another object afterwards
+// (results bound by reference, as a caller may: a function returning a reference to a shared buffer fails here).
+template <class X>
+static void check_held_strings(const std::string& name, const X& x, const X& other) {
+  bool ok = true;
+  auto held = [&](auto get) {
+    const auto& first = get(x);
+    const std::string before(first);
+    const auto& second = get(other);
+    (void)second;
+    ok = ok && std::string(first) == before;
+  };
+  held([](const X& v) -> decltype(auto) { return v.Print(); });
+  held([](const X& v) -> decltype(auto) { return v.JSON(); });
+  held([](const X& v) -> decltype(auto) { return v.XML(); });
+  held([](const X& v) -> decltype(auto) { return v.YAML(); });
+  vf::stat("held_string_checks", 4);
+  if (!ok) vf::viol("printed-text-changes-with-a-later-call|" + name + "|" + vf::TName<vf::num_t<X>>::value, "{\"type\":" + vf::jstr(name) + "}");
+}
 #ifndef VF_C15_CORE
 struct F {
   template <template <class> class Q>
@@ -292,6 +311,7 @@ struct F {
       os << q;
       const std::string st = os.str();
       check_stream_states(name, q);
+      check_held_strings(name, q, vf::make<Q>(value_sets<T>()[vals == value_sets<T>()[0] ? 1 : 0].data()));
       if constexpr (vf::HasUnit<Q>::value) {
         using U = std::decay_t<decltype(Q::Unit())>;
         check_forms<Q, T, N>(name, "standard", q, c, std::string(PhQ::Abbreviation(Q::Unit())), true, q.Print(), q.JSON(), q.XML(), q.YAML(), &st);
